@@ -53,6 +53,7 @@ type FuncContract struct {
 	Modifies    []*SExpr
 	HasModifies bool
 	Loops       map[int]*LoopSpec
+	InlineLoops map[string]*LoopSpec // loops of callees executed in place: "<callee pattern>#<ordinal>"
 	Pure        bool
 	Inline      bool
 	Trusted     bool // contract is assumed, body not verified (external functions)
@@ -62,6 +63,7 @@ type FuncContract struct {
 	Relies      []*Clause
 	Ghosts      []GhostUpdate
 	ParamNames  []string      // interface contracts: parameter names of the method
+	AssumeAsserts []string    // type assertions to these types are assumed to succeed (listed)
 	BV          bool          // verify in bit-vector mode
 	Consumes    []ConsumeSpec // function-typed parameters / expressions completed exactly once
 	Implements  []string      // interface contracts (keys) this function must refine
@@ -140,7 +142,7 @@ type Contracts struct {
 var clauseKeywords = map[string]bool{
 	"pred": true, "func": true, "prop": true, "requires": true, "ensures": true, "modifies": true,
 	"loop": true, "pure": true, "inline": true, "trusted": true, "assert": true, "assume": true, "after": true,
-	"globalinv": true, "remember": true, "devirtualize": true, "immutable": true, "guarded": true, "arith": true, "consumes": true, "implements": true, "let": true, "rely": true, "expect-obligations": true, "iface": true, "nobody": true, "ghostmap": true, "ghost": true,
+	"assume-typeassert": true, "globalinv": true, "remember": true, "devirtualize": true, "immutable": true, "guarded": true, "arith": true, "consumes": true, "implements": true, "let": true, "rely": true, "expect-obligations": true, "iface": true, "nobody": true, "ghostmap": true, "ghost": true,
 }
 
 var tagRe = regexp.MustCompile(`^\[([^\]]*)\]\s*`)
@@ -401,6 +403,8 @@ func (c *Contracts) parseFile(path, pkgPath string) error {
 			for _, w := range strings.FieldsFunc(r.text, func(r rune) bool { return r == ',' || r == ' ' }) {
 				cur.Props = append(cur.Props, w)
 			}
+		case "assume-typeassert":
+			cur.AssumeAsserts = append(cur.AssumeAsserts, strings.TrimSpace(r.text))
 		case "arith":
 			cur.BV = strings.TrimSpace(r.text) == "bv"
 		case "consumes":
@@ -497,19 +501,32 @@ func (c *Contracts) parseFile(path, pkgPath string) error {
 			if len(f) < 3 {
 				return fmt.Errorf("%s:%d: malformed loop clause", path, r.line)
 			}
-			n, err := strconv.Atoi(f[0])
-			if err != nil {
-				return fmt.Errorf("%s:%d: loop ordinal: %v", path, r.line, err)
-			}
+			n, aerr := strconv.Atoi(f[0])
 			rest := strings.TrimSpace(strings.TrimPrefix(strings.TrimSpace(strings.TrimPrefix(r.text, f[0])), f[1]))
 			cl, err := mk(rest, r.line)
 			if err != nil {
 				return err
 			}
-			ls := cur.Loops[n]
-			if ls == nil {
-				ls = &LoopSpec{}
-				cur.Loops[n] = ls
+			var ls *LoopSpec
+			if aerr != nil {
+				// a loop of a callee that is executed in place: <callee pattern>#<ordinal>
+				if !strings.Contains(f[0], "#") {
+					return fmt.Errorf("%s:%d: loop ordinal: %v", path, r.line, aerr)
+				}
+				if cur.InlineLoops == nil {
+					cur.InlineLoops = map[string]*LoopSpec{}
+				}
+				ls = cur.InlineLoops[f[0]]
+				if ls == nil {
+					ls = &LoopSpec{}
+					cur.InlineLoops[f[0]] = ls
+				}
+			} else {
+				ls = cur.Loops[n]
+				if ls == nil {
+					ls = &LoopSpec{}
+					cur.Loops[n] = ls
+				}
 			}
 			switch f[1] {
 			case "invariant":
